@@ -31,6 +31,8 @@ _MECARD_ESCAPE = {
 _VCARD_ESCAPE = {
     ord(','): '\\,',
     ord(';'): '\\;',
+    ord('\n'): '\\n',
+    ord('\r'): '',
 }
 
 
